@@ -26,6 +26,11 @@ def make_obs(ctx):
                           dict(d, REP=REPS['daisy'], UNIT=DUR[u], NMAX=nb[u], STUB_TADD=1), units=UNITS, group='dtadd:daisy:' + u,
                           bounds=dict(b, n='|n| <= %d %s' % (nb[u], u)), remove_bodies=P(['daisy']), timeout=400,
                           kf=['daisy_tail'] if hi >= 4094 else []))
+        # wide hour counts with the REAL dt_tadd_s (the 4-bit day carry out of a time addition)
+        obs.append(Ob('dtadd:daisy:h-wide:%d-%d' % (lo, hi), H, 'h_dtadd',
+                      dict(d, REP=REPS['daisy'], UNIT='DT_DURH', NMAX=200), units=UNITS, group='dtadd:daisy:h-wide',
+                      bounds=dict(b, n='|n| <= 200 h (beyond the +-7 day carry slot)'), remove_bodies=P(['daisy']),
+                      timeout=600))
         for rp, nmax, uw in (('ymd', 1024, 5), ('ywd', 1024, 4), ('yd', 1024, 4)):
             obs.append(Ob('dtadd:%s:s:%d-%d' % (rp, lo, hi), H, 'h_dtadd',
                           dict(d, REP=REPS[rp], UNIT='DT_DURS', NMAX=nmax, STUB_TADD=1), units=UNITS, unwind=uw,
